@@ -423,6 +423,7 @@ Definition b_read_annotations (b : bstate) (sid_ok : N -> bool) : bres (list N) 
   match b_read_varuint b (b_len b) with
   | (b1, Ok (alen, llen)) =>
     if alen =? 0 then (b1, Err) else
+    if wrap64 (b_len b + two64 - llen) <? alen then (b1, Err) else    (* annotations longer than the wrapper *)
     let remaining := wrap64 (wrap64 (b_len b + two64 - llen) + two64 - alen) in
     if remaining =? 0 then (b1, Err) else
     (* every iteration consumes at least one byte of input or fails *)
